@@ -400,6 +400,7 @@ type shapeDB struct {
 	bad     map[string]string // context types whose generated accessors disagree with the grammar text
 	pruned  []string
 	pruneMiss []string
+	minTok  map[string]int // rule -> least number of tokens one of its matches consists of
 }
 
 type shapePrune struct {
@@ -608,6 +609,27 @@ func loadShapes(pkgPath, dir string) (*shapeDB, error) {
 					changed = true
 					break
 				}
+			}
+		}
+	}
+	// least number of tokens per rule (fixpoint from above)
+	db.minTok = map[string]int{}
+	const inf = 1 << 20
+	for _, rn := range g.order {
+		db.minTok[rn] = inf
+	}
+	for changed := true; changed; {
+		changed = false
+		for _, rn := range g.order {
+			m := inf
+			for _, a := range g.rules[rn].alts {
+				if v := db.minTokNode(a.body); v < m {
+					m = v
+				}
+			}
+			if m < db.minTok[rn] {
+				db.minTok[rn] = m
+				changed = true
 			}
 		}
 	}
@@ -849,4 +871,46 @@ func nonLastSyms(n *gNode) (all, nl map[string]bool) {
 		}
 	}
 	return
+}
+
+func (db *shapeDB) minTokNode(n *gNode) int {
+	const inf = 1 << 20
+	if n.never {
+		return inf
+	}
+	switch n.kind {
+	case "sym":
+		if n.tok {
+			if n.sym == "EOF" {
+				return 0
+			}
+			return 1
+		}
+		if v, ok := db.minTok[n.sym]; ok {
+			return v
+		}
+		return 0
+	case "seq":
+		t := 0
+		for _, k := range n.kids {
+			t += db.minTokNode(k)
+			if t >= inf {
+				return inf
+			}
+		}
+		return t
+	case "alt":
+		m := inf
+		for _, k := range n.kids {
+			if v := db.minTokNode(k); v < m {
+				m = v
+			}
+		}
+		return m
+	case "opt", "star":
+		return 0
+	case "plus":
+		return db.minTokNode(n.kids[0])
+	}
+	return 0
 }
